@@ -1,3 +1,5 @@
+import GoRedisModel.Model.ParserImpl
+import GoRedisModel.Generated.Facts
 import GoRedisModel.Proofs.Parse
 import GoRedisModel.Model.Ctor
 import GoRedisModel.Proofs.SourceFacts
@@ -118,5 +120,10 @@ example : inInt64 (-9223372036854775808) = true ∧ inInt64 9223372036854775807 
 theorem C01_source_type_bytes :
     Generated.typeBytes = [("arrayMessageByte", "*"), ("bulkMessageByte", "$"), ("errorMessageByte", "-"),
     ("integerMessageByte", ":"), ("stringMessageByte", "+")] := source_type_bytes_match_model
+
+/-- **The serializer source is the one that was transcribed** (regenerated on every run): `Message.RESPBytes` and
+`Array.RESPBytes` have the fingerprints `enc` was written from -/
+theorem C01_source_serializer_is_the_modelled_one :
+    serializerModelled.all (fun e => Generated.protoFingerprints.contains (e.1, e.2.1)) = true := by decide
 
 end GoRedis
